@@ -3,6 +3,19 @@
 //@ must_verify do_validate build_file FileBuilder::assert_results FileBuilder::assert_summary FileBuilder::set_strict FileBuilder::enable_validate_mode AssertCollector::new AssertCollector::record_assert_result
 //@ include prelude/head.rs
 
+// C13, per-file verdict: `do_validate` / `build_file` (main.rs) and the FileBuilder accessors they read the
+// collector through (build/mod.rs), verbatim.  `FileBuilder::build` (the whole compiler) is an ASSUMED-contract
+// stub: it appends entries to the shared collector, never removes or rewrites them, returns Ok or Err.
+// Contract of do_validate, from the property statement: the verdict is PASS iff the build returned Ok and
+// every entry recorded DURING THIS CALL is ok -- independent of what earlier files left in the collector --
+// and what is printed for the file is exactly this call's entries (one line each) followed by the verdict.
+// History: the tree before `fix: ucg test gives every file its own verdict and log` fails exactly the three
+// per-file clauses (`tracks`, the verdict, the printed log): the collector in the shared Environment was never
+// reset (replay: `ucg test a_test.ucg b_test.ucg`, a failing => b reported Fail and b's log repeats a's lines).
+// Not claimed: when the build returns Err the collector's summary is NOT printed (only the error), so
+// assertions evaluated before the error appear in no log; `printed_for` says so explicitly.
+// R11 is implemented by stand-in methods `VEnv::borrow_mut`/`borrow` (prelude/collector_env.rs), not by text
+// rewriting; R12 threads `world: &mut World` through both functions.
 verus! {
 //@ include prelude/core.rs
 //@ include prelude/collector_model.rs
